@@ -18,14 +18,22 @@ _m(
     "iterations n in 2..6 cut into 2 (any split k in 0..n) or 3 segments; later calls optionally set new constraints, a "
     "new scheduler or new optimiser parameters; store zip/dir (second boundary uses the other one), from_file(device=None|"
     "'cpu'), reconstruct(device=None|'cpu'), snapshots on/off, batch_size None or = number of patterns (always full "
-    "batch), which of original/clone is continued first.  "
+    "batch), which of original/clone is continued first.  The set of optimisers may change along the sequence: in ~1 of 5 "
+    "cases (always in the 'attach' sub-search) the dataset and/or probe optimiser is first attached by a call AFTER an "
+    "interruption (all branches and the uninterrupted run make the same call).  'lineage' sub-search: three segments, "
+    "the first interruption of the reload branch is a data-less checkpoint (save() default save_raw_data=False, then "
+    "from_file(path, dset=<dataset rebuilt and preprocessed by the harness>), the documented route), the dataset optimiser "
+    "(lr >= 1e-2 adam / 0.1 sgd) is attached after it or was active before and every optimiser is re-stated by the next "
+    "call; the second interruption is a with-data checkpoint of that object AND a clone() of it, both continued.  "
     "(skip) the same problems, 1..3 iterations, then a history of 2..3 Ptychography.save calls on one object with skip "
     "lists over {_iter_losses, _iter_lrs, _snapshots, _iter_recon_types, _iter_val_losses, _obj_fov_mask, _dset, dset, the "
     "types list and dict} given as list / tuple / single value or as ONE caller-owned list object passed to every call, "
     "save_raw_data True/False, zip/dir; the last call is always complete (save_raw_data=True, dataset not skipped).  "
     "A case is NON-TRIVIAL when: resume - the first interruption is strictly inside the run (0 < k < n) and either a "
     "stateful optimiser (adam, adamw, sgd with momentum) or an active scheduler is carried across it (the next call does "
-    "not replace it); skip - some complete save is preceded by a save that skipped something (by name, by type or through "
+    "not replace it), or an optimiser is first attached in a call after an interruption with iterations still to run, or "
+    "the case is a lineage case (data-less checkpoint, learned dataset, then with-data checkpoint/clone, all segments "
+    ">= 1 iteration); skip - some complete save is preceded by a save that skipped something (by name, by type or through "
     "save_raw_data=False) which the complete save itself does not skip.  distinct = SHA-1 of the canonical JSON of the "
     "whole case.",
     [
@@ -43,10 +51,17 @@ _m(
         "tree over 8400 + 6300 generated cases (about 60000 comparisons): losses typically <= 1e-6 relative (worst 5e-6 = 0.24 "
         "of tolerance), LR histories identical, object <= 0.08 and probe <= 0.013 of tolerance outside the fresh-Adam class "
         "(there: up to 1.7 % of the lr path)",
-        "the pattern order inside the full batch is re-drawn from an unseeded generator after a reload (numpy generator "
-        "state is not restored; clone() goes through save/reload because deepcopy fails on non-leaf tensors): summation "
-        "order and hence float32 rounding differ between the uninterrupted run and every continuation; results of the "
-        "continuations are not bit-reproducible from run to run",
+        "the pattern order inside the full batch is drawn from the object's numpy generator, whose state is not restored "
+        "by a reload (clone() goes through save/reload because deepcopy fails on non-leaf tensors, and may draw from its "
+        "source's generator); the property excludes that order, so the harness re-installs the generator state the source "
+        "had (public rng property) on every loaded/cloned object and on the cloned source.  All branches then sum in the "
+        "order of the uninterrupted run: on the clean tree continuations are bit-identical to it (2800 generated cases: "
+        "loss, LR and probe deviations exactly 0, object <= 4e-4 of tolerance).  The tolerances below were calibrated "
+        "WITHOUT that alignment and are kept as they are",
+        "data-less checkpoints carry learned scan positions / descan shifts but not the dataset model's own optimiser, "
+        "scheduler and constraints: lineage cases have none of these before the data-less checkpoint or re-state them in "
+        "the next call (verified on the clean tree: both flavours continue within 2e-7 of the uninterrupted run even "
+        "without generator alignment); the dataset entry of the constraints report is not compared across a data-less load",
         "object comparison for Adam/AdamW-driven objects and for complex/pure_phase objects with autograd is restricted to "
         "the well-illuminated pixels (harness-side illumination map > 5 % of its maximum, np.add.at of the initial probe "
         "intensity over the patch indices), complex/pure_phase modulo one global phase: Adam normalises every pixel's step "
@@ -78,8 +93,8 @@ _m(
     technique="property-based testing (Hypothesis): differential run of the same generated call sequence on an uninterrupted "
     "object vs reloaded / cloned / saved-original continuations, plus generated histories of save() calls with different skip "
     "arguments; exact state equality right after save/load/clone",
-    text="Generated-input search (about 0.8 s per case; quick = 4 workers x 65 cases without shrinking, thorough = 16 workers "
-    "x 580 cases).  Every case is judged against a never-interrupted run of the same calls and against the reported state of "
+    text="Generated-input search (about 0.8 s per case, lineage cases 1.6 s; quick = 4 workers x (10 skip + 42 resume + 8 attach "
+    "+ 8 lineage) cases without shrinking, thorough = 16 workers x 600 cases).  Every case is judged against a never-interrupted run of the same calls and against the reported state of "
     "the object that was saved/cloned.  The worst observed error/tolerance ratio per quantity is reported under "
     "coverage.extra.  Exploration only: no absence claim.",
     note="CPU only: parameter/optimizer re-binding after a real device move cannot be observed (an early return in "
